@@ -432,7 +432,7 @@ def context(mode=None, suppressed=None, after_hash=None):
     return Agg('typstyle_core::pretty::context::Context', None, [md, TOP if suppressed is None else Const(suppressed), TOP if after_hash is None else Const(after_hash)])
 
 
-def evaluate_sequence(w, b, param, parent_kind, seq, no_inline=None, max_paths=12000, ctx=None, extra=None, hooks=None, with_wholes=False, edge_hint=None, peel=None, respect_kinds=False, from_start=False, accessor_model=None):
+def evaluate_sequence(w, b, param, parent_kind, seq, no_inline=None, max_paths=12000, ctx=None, extra=None, hooks=None, with_wholes=False, edge_hint=None, peel=None, respect_kinds=False, from_start=False, accessor_model=None, later_loops_empty=False):
     """evaluate consecutive iterations <seq[0], seq[1], ..> of every loop over syntax nodes in converter b (state carried
     from one iteration to the next, all other state unknown); returns [(loop, [events of step 0], [events of step 1], ..)]"""
     ip = Interp(w, max_depth=12, max_paths=max_paths, max_steps=600000)
@@ -440,6 +440,8 @@ def evaluate_sequence(w, b, param, parent_kind, seq, no_inline=None, max_paths=1
                                              or 'get_fold_style' in tb.short or tb.short.startswith('attr::') or tb.short.endswith('has_comment_children')) and tb.id != b.id)
     def items(interp, m, f, t):
         if any(x.get('ended') for x in (m.iter or [])):
+            if later_loops_empty:
+                return []     # the caller is interested in the loop that consumed the sequence only: later loops see no children
             # the sequence was consumed by an earlier loop: later loops of the converter iterate one representative significant child
             # (so that what they emit after the sequence is visible), or nothing when they are nested too deeply to matter
             if len(m.iter or []) >= 3 or f.body.locals[0]['ty']['s'] == 'bool':
